@@ -63,6 +63,9 @@ def make_full(rng, cls):
         face = Bd.face3d(rng, nholes=nh)
         mv = Vector3D(*full((0.1, 0.2, 0.3)))
         face = face.move(mv)
+        if rng.random() < 0.3:
+            # a small face (a few centimetres across, edges of millimetres) somewhere in the model
+            face = face.scale(rng.choice([0.002, 0.0005]), face.center)
         if rng.random() < 0.5:
             return Face3D(face.boundary, face.plane, face.holes)
         return face
@@ -116,9 +119,20 @@ def cmp_dict(a, b, path='', unit=False):
     return None
 
 
-def fam_roundtrip(ctx, rng, special=None):
-    cls = rng.choice(Bd.ALL_CLASSES)
-    o = make_full(rng, cls)
+def fam_small_faces(ctx, rng):
+    """faces a few centimetres or millimetres across (edges >= 1e-3), facing up and down, with and without holes, through every route"""
+    face = Bd.face3d(rng, nholes=rng.choice([0, 0, 1]), n=rng.choice([3, 4, 5, 6]))
+    face = face.scale(rng.choice([0.002, 0.001, 0.0005]), face.center)
+    if rng.random() < 0.5:
+        face = face.flip()
+    if rng.random() < 0.5:
+        face = Face3D(face.boundary, None, face.holes)
+    fam_roundtrip(ctx, rng, force=face)
+
+
+def fam_roundtrip(ctx, rng, special=None, force=None):
+    cls = rng.choice(Bd.ALL_CLASSES) if force is None else type(force).__name__
+    o = make_full(rng, cls) if force is None else force
     if special:
         # arcs whose start / end angle is exactly 0.0 (the end of the documented range 0 <= a <= 2 pi)
         cls, which = special
@@ -138,6 +152,19 @@ def fam_roundtrip(ctx, rng, special=None):
             routes['array'] = type(o).from_array(o.to_array())
     except Exception as e:
         ctx.violation('roundtrip:%s:raises' % cls, '%r' % (e,), desc); return
+    if cls == 'Face3D':
+        # the description WITHOUT the optional plane entry: boundary, holes and the facing direction still come back
+        try:
+            dn = o.to_dict(include_plane=False)
+            for route, mk in (('dict_no_plane', Face3D.from_dict), ('dispatcher_no_plane', geometry_dict_to_object)):
+                rn = mk(json.loads(json.dumps(dn)))
+                diff = cmp_dict(json.loads(json.dumps(dn)), json.loads(json.dumps(rn.to_dict(include_plane=False))), cls)
+                if diff is None and rn.normal.dot(o.normal) < 1 - 1e-9:
+                    diff = 'normal %r, the described face has %r' % (rn.normal, o.normal)
+                if diff:
+                    ctx.violation('roundtrip:Face3D:%s:data' % route, 'without the plane entry: %s' % diff, desc); break
+        except Exception as e:
+            ctx.violation('roundtrip:Face3D:no_plane:raises', '%r' % (e,), desc)
     for route, r in routes.items():
         if type(r) is not type(o):
             ctx.violation('roundtrip:%s:%s:type' % (cls, route), 'got a %s' % type(r).__name__, desc); continue
@@ -358,7 +385,7 @@ def fam_signed_zero(ctx, rng, cls=None):
             ctx.violation('eq:Plane:signed_zero:flip', 'flip() of a horizontal plane equals the directly built plane but hashes differently', {'class': cls})
 
 
-FAMILIES = [(fam_roundtrip, 130), (fam_equality, 130), (fam_integer_coordinates, 22), (fam_signed_zero, 20)]
+FAMILIES = [(fam_roundtrip, 130), (fam_small_faces, 40), (fam_equality, 130), (fam_integer_coordinates, 22), (fam_signed_zero, 20)]
 
 
 def explore(ctx):
